@@ -280,6 +280,7 @@ static void dense_sym_shift(const Data& d, int tycode, double sigma)
     SolveLog s = run_solve<Sc>(n, M, xl, [&](int variant) {
         Mat A = poisoned<Mat>(d.S, Uplo, variant);
         DenseSymShiftSolve<Sc, Uplo, Flags> op(A);
+        op.set_shift((Sc) (sigma + 1.25));   // an earlier factorization on the same object must leave no trace
         op.set_shift((Sc) sigma);
         Vec x = d.x.cast<double>().template cast<Sc>(), y(n);
         op.perform_op(x.data(), y.data());
@@ -299,6 +300,7 @@ static void sparse_sym_shift(const Data& d, int tycode, double sigma, const char
         Mat A = poisoned<Mat>(d.S, Uplo, variant);
         Eigen::SparseMatrix<Sc, Flags, SI> As = A.sparseView();
         SparseSymShiftSolve<Sc, Uplo, Flags, SI> op(As);
+        op.set_shift((Sc) (sigma + 1.25));
         op.set_shift((Sc) sigma);
         Vec x = d.x.cast<double>().template cast<Sc>(), y(n);
         op.perform_op(x.data(), y.data());
@@ -321,12 +323,14 @@ static void gen_real_shift(const Data& d, int tycode, double sigma, const char* 
         {
             Eigen::SparseMatrix<Sc, Flags, SI> As = A.sparseView();
             SparseGenRealShiftSolve<Sc, Flags, SI> op(As);
+            op.set_shift((Sc) (sigma + 1.25));
             op.set_shift((Sc) sigma);
             op.perform_op(x.data(), y.data());
         }
         else
         {
             DenseGenRealShiftSolve<Sc, Flags> op(A);
+            op.set_shift((Sc) (sigma + 1.25));
             op.set_shift((Sc) sigma);
             op.perform_op(x.data(), y.data());
         }
@@ -483,6 +487,7 @@ static void sym_shift_invert(const Data& d, double sigma)
         typedef SymShiftInvert<Sc, TA, TB, UA, UB, FA, FB> W;
         std::unique_ptr<W> op;
         op.reset(MkSSI<W, std::is_same<TA, Eigen::Sparse>::value, std::is_same<TB, Eigen::Sparse>::value>::make(A, B, As, Bs));
+        op->set_shift(sigma + 1.25);
         op->set_shift(sigma);
         op->perform_op(x.data(), y.data());
         return y;
